@@ -88,7 +88,8 @@ def generate(seed, prop):
             "no_figure": rng.random() < 0.92}
     sched = {"mode": rng.choice(["random", "random", "random", "fifo"]), "seed": rng.randrange(1 << 30),
              "stall_rate": rng.choice([0.0, 0.1, 0.3])}
-    return {"machine": "cli", "property": prop, "run_seed": int(seed), "config": {"straddle": straddle},
+    return {"machine": "cli", "property": prop, "run_seed": int(seed),
+            "config": {"straddle": straddle, "calibrate": rng.random() < 0.08},
             "world": {"files": files, "pre": pre, "proc": proc},
             "ops": [{"op": "cli", "argv": argv, "sched": sched}], "faults": []}
 
@@ -341,6 +342,25 @@ def execute(triple, prop):
         ctx.check(not extra, "unexpected_output", f"unexpected files in the working directory: {extra}", key=key)
         if not expect_fail and not (pool is not None and pool.errors and not argv["no_figure"]):
             ctx.check(cli_exc is None, "cli_raised", lambda: f"cli raised {cli_exc!r}", key=key)
+        # ---- calibration (thorough tier only): the real multiprocessing.Pool must give the same files
+        if triple.get("config", {}).get("calibrate") and os.environ.get("VERIF_TIER") == "thorough" and \
+                argv["no_figure"] and not expect_fail and cli_exc is None:
+            CLI.Pool, CLI.time, CLI.os = saved[0], saved[1], SimOs(argv["cpus"])
+            real_dir = os.path.join(d, "real")
+            os.makedirs(real_dir)
+            os.chdir(real_dir)
+            import contextlib
+            with warnings.catch_warnings(), contextlib.redirect_stdout(io.StringIO()):
+                warnings.simplefilter("ignore")
+                CLI.cli.main(args=args, standalone_mode=False)
+            os.chdir(out_dir)
+            for s_ in stems:
+                a_ = open(os.path.join(real_dir, s_ + ".csv"), "rb").read()
+                b_ = open(os.path.join(out_dir, s_ + ".csv"), "rb").read()
+                dd = same_output(a_, b_)
+                if dd is not None:
+                    raise HarnessError(f"calibration: real Pool and SimPool disagree on {s_}.csv: {dd}")
+            ctx.probe("calibrated_against_real_pool")
         # ---- probes and signature
         if pool:
             classes = [sorted(fft_class(next(f for f in world["files"] if f["stem"] == s), world["pre"]["window_length_in_seconds"])
@@ -450,3 +470,4 @@ EVIDENCE = {"C19": {
                     "a worker killed mid-chunk and failing input files are not simulated (outside C19)",
                     "the reference for a file is produced in a pristine forked child with freshly loaded settings"],
 }}
+REQUIRED_PROBES = {"C19": ["chunk_with_two_tasks", "worker_executed_two_chunks"]}
